@@ -172,10 +172,13 @@ func c182(c *an.Ctx, p *an.Prog) {
 		idNZ := false
 		nonNil := 0
 		for _, a := range s.Atoms {
-			if a.Op == "!=" && a.B.IsConst("0") && strings.HasSuffix(a.A.K, ".ID") {
+			if a.B == nil {
+				continue
+			}
+			if a.Op == "!=" && a.B.IsConst("0") && termField(a.A) == "ID" {
 				idNZ = true
 			}
-			if a.Op == "!=" && a.B.IsConst("nil") && (strings.HasSuffix(a.A.K, ".Scryptauth") || strings.HasSuffix(a.A.K, ".Argon2ID")) {
+			if a.Op == "!=" && a.B.IsConst("nil") && (termField(a.A) == "Scryptauth" || termField(a.A) == "Argon2ID") {
 				nonNil++
 			}
 		}
@@ -198,14 +201,14 @@ func c182(c *an.Ctx, p *an.Prog) {
 				if !callErrNil(s, cc) {
 					bad = append(bad, "iteration continues although "+shortName(cc.Aux)+" may have failed")
 				}
-				if !strings.HasSuffix(e.Args[1].K, ".ID") {
+				if termField(e.Args[1]) != "ID" {
 					bad = append(bad, "hasher registered under "+e.Args[1].K+", not under the set's id")
 				}
-				want := ".Scryptauth"
+				want := "Scryptauth"
 				if cc.Aux == storePkg+".NewArgon2IDHasher" {
-					want = ".Argon2ID"
+					want = "Argon2ID"
 				}
-				if !strings.HasSuffix(cc.Args[0].K, want) {
+				if termField(cc.Args[0]) != want {
 					bad = append(bad, shortName(cc.Aux)+" is given "+cc.Args[0].K)
 				}
 			}
